@@ -8,10 +8,16 @@ from harness import gen
 from harness.framework import Suite
 
 PID = "C08"
-LEAN_MODS = ["SwcVerif.Props.C08"]
+LEAN_MODS = ["SwcVerif.Props.C08", "SwcVerif.Props.C08Gen"]
+TRANSLATE_ALGO = ["AlgoTraverse", "AlgoBranches"]   # Gen/AlgoBranches.lean (Tree.get_branches / get_paths / get_furcations and their closures) runs on Gen/AlgoTraverse.lean
+DRIVER_FILES = ["SwcVerif/Model/AlgoRunBranches.lean"]
 THEOREMS = [
     "C08.getBranches_eq", "C08.branches_partition_edges", "C08.branch_shape", "C08.branch_ends", "C08.getPaths_eq", "C08.paths_one_per_tip",
     "C08.tips_eq_childless", "C08.tipsOf_childless", "C08.furcations_eq", "C08.furcsOf_ge2", "C08.branchTree_table",
+    # refinement: the methods and closures generated from tree.py on this run, on the generated traversal
+    "RefineClosures.spec_wrap", "RefineClosures.traverse_closures", "RefineBranches.collectBranches_refines", "RefineBranches.collectFurcations_refines",
+    "RefineBranches.assignPath_refines", "RefineBranches.collectPath_refines", "RefineBranches.getBranches_refines", "RefineBranches.getFurcations_refines",
+    "C08.generated_getBranches_eq", "C08.generated_getBranches_eq_model", "C08.generated_furcations_eq",
 ]
 TRUSTED = ["hand-written models Model/Branches.lean of the traversal callbacks (tied by the c08.decomp correspondence suite)"]
 ASSUMPTIONS = ["the traversal loop is C04's machine (C04.traverse_eq_spec)", "np.setdiff1d returns the sorted ids that never occur as a parent"]
@@ -205,8 +211,13 @@ class Decomp(Suite):
         t = dict(case["tree"]); t["pids"] = res["pids_eff"]; t["n"] = len(res["pids_eff"])
         a = f"ids={gen.ints(range(t['n']))} pids={gen.ints(t['pids'])}"
         sl = lambda ls: ";".join(gen.ints(b).replace("_", "") for b in ls)
-        return [("branches " + a, sl(res["branches"])), ("paths " + a, sl(res["paths"])),
-                ("furcs " + a, gen.ints(res["furcations"]).replace("_", "")), ("tips " + a, gen.ints(sorted(res["tips"])).replace("_", ""))]
+        out = [("branches " + a, sl(res["branches"])), ("paths " + a, sl(res["paths"])),
+               ("furcs " + a, gen.ints(res["furcations"]).replace("_", "")), ("tips " + a, gen.ints(sorted(res["tips"])).replace("_", ""))]
+        # the methods generated from tree.py on this run, running on the generated traversal (translator cross-check)
+        out += [("gbranches " + a, sl(res["branches"])), ("gfurcs " + a, gen.ints(res["furcations"]).replace("_", ""))]
+        if t["n"] <= 1500:
+            out.append(("gpaths " + a, sl(res["paths"])))       # the association-list dictionary of the generated code is quadratic
+        return out
 
     def oracle(self, case, res):
         t = case["tree"]
@@ -326,9 +337,9 @@ class Decomp(Suite):
 
 
 SUITES = [Decomp()]
-TECHNIQUE = "Lean 4 theorems by structural induction on Rose about the traversal callbacks of get_branches/get_paths/get_furcations (edge partition as a permutation, branch shape, one path per tip) + differential correspondence + direct oracle of the decomposition"
+TECHNIQUE = "Lean 4 theorems by structural induction on Rose about the traversal callbacks of get_branches/get_paths/get_furcations (edge partition as a permutation, branch shape, one path per tip); Tree.get_branches / get_furcations / get_paths and their closures are TRANSLATED from tree.py on every run (harness/translate_algo.py → Gen/AlgoBranches.lean, running on the translated _traverse_dfs) and get_branches / get_furcations proved equal to the structural recursions of these theorems (RefineBranches.getBranches_refines, getFurcations_refines; closures of get_paths: callback-level equalities) + differential correspondence + direct oracle of the decomposition"
 LEVEL_TEXT = ("Kernel-checked for every tree shape: the branches returned by the model of get_branches (incl. the stem of a one-child root) list every "
               "parent–child edge exactly once, start at the root or a furcation, end at a furcation or tip and pass only through one-child nodes; one path per tip; "
               "tips/furcations are the childless / multi-child nodes; the branch tree keeps exactly root, furcations and tips.")
-LEVEL_NOTE = "Trusted: Lean kernel; hand-written callback models tied to the code on generated trees only; numpy setdiff1d / fancy indexing."
+LEVEL_NOTE = "Trusted: Lean kernel; the imperative translator and its semantics library Model/Py.lean (a Node is its id, a Tree.Branch the list of its node ids; cross-checked by running the generated methods); get_paths as a whole, get_tips and BranchTree.from_tree tied by correspondence; numpy setdiff1d / fancy indexing."
 
